@@ -139,27 +139,8 @@ func evalExecBlock(vm *r.VM, execBlock *syntax.ExecBlock, params []r.Element) (r
 }
 
 func evalStmtBlock(vm *r.VM, stmtBlock *syntax.StmtBlock) (r.Element, error) {
-	for _, stmtX := range stmtBlock.Children {
-		switch v := stmtX.(type) {
-		case *syntax.ClassDeclareStmt:
-			// declare class (definitions are evaluated ahead of the other statements; a
-			// fault in one of them is reported at its own line)
-			vm.SetCurrentLine(v.GetCurrentLine())
-			if err := evalClassDeclareStmt(vm, v); err != nil {
-				return nil, err
-			}
-		case *syntax.FunctionDeclareStmt:
-			vm.SetCurrentLine(v.GetCurrentLine())
-			if v.DeclareType == syntax.DeclareTypeConstructor {
-				if err := evalConstructorDeclareStmt(vm, v); err != nil {
-					return nil, err
-				}
-			} else {
-				if err := evalFunctionDeclareStmt(vm, v); err != nil {
-					return nil, err
-				}
-			}
-		}
+	if err := hoistDeclarations(vm, stmtBlock); err != nil {
+		return nil, err
 	}
 	// the statements of a body belong to the same block as its 输入 names and definitions
 	vm.BeginJoinedScope()
@@ -167,10 +148,43 @@ func evalStmtBlock(vm *r.VM, stmtBlock *syntax.StmtBlock) (r.Element, error) {
 	return evalStmtsInCurrentScope(vm, stmtBlock)
 }
 
+// hoistDeclarations - evaluate the 定义 / 如何 / 如何新建 statements of a block ahead of its other
+// statements, in the current scope
+func hoistDeclarations(vm *r.VM, stmtBlock *syntax.StmtBlock) error {
+	for _, stmtX := range stmtBlock.Children {
+		switch v := stmtX.(type) {
+		case *syntax.ClassDeclareStmt:
+			// declare class (definitions are evaluated ahead of the other statements; a
+			// fault in one of them is reported at its own line)
+			vm.SetCurrentLine(v.GetCurrentLine())
+			if err := evalClassDeclareStmt(vm, v); err != nil {
+				return err
+			}
+		case *syntax.FunctionDeclareStmt:
+			vm.SetCurrentLine(v.GetCurrentLine())
+			if v.DeclareType == syntax.DeclareTypeConstructor {
+				if err := evalConstructorDeclareStmt(vm, v); err != nil {
+					return err
+				}
+			} else {
+				if err := evalFunctionDeclareStmt(vm, v); err != nil {
+					return err
+				}
+			}
+		}
+	}
+	return nil
+}
+
 // evalPureStmtBlock - evaluate statement block without classDef/funcDef/import statements
 func evalPureStmtBlock(vm *r.VM, stmtBlock *syntax.StmtBlock) (r.Element, error) {
 	vm.BeginScope()
 	defer vm.EndScope()
+	// a branch, loop body or handler may hold definitions of its own: they are declarations of
+	// this block (they used to be skipped without a word, so the names were never defined)
+	if err := hoistDeclarations(vm, stmtBlock); err != nil {
+		return nil, err
+	}
 	return evalStmtsInCurrentScope(vm, stmtBlock)
 }
 
@@ -396,7 +410,9 @@ func evalClassDeclareStmt(vm *r.VM, node *syntax.ClassDeclareStmt) error {
 // (not to the body of a method or of a handler)
 func isModuleLevel(vm *r.VM) bool {
 	frame := vm.GetCurrentCallFrame()
-	return frame != nil && frame.IsScriptCallFrame()
+	// (scope depth 1 is where the definitions of the module body itself are declared; a
+	// definition inside a branch or loop of the module body sits deeper and stays local)
+	return frame != nil && frame.IsScriptCallFrame() && vm.ScopeDepth() == 1
 }
 
 // 如何XX？
